@@ -7,6 +7,7 @@ Implements many of the main functions used to call PROPKA.
 
 import logging
 import argparse
+import math
 from pathlib import Path
 from typing import Dict, Iterable, Iterator, List, TYPE_CHECKING, NoReturn, Optional, Tuple, TypeVar
 
@@ -145,10 +146,11 @@ def make_grid(min_: Number, max_: Number, step: Number) -> Iterator[Number]:
         max_:  maximum value of grid
         step:  grid step size
     """
-    x = min_
-    while x <= max_:
-        yield x
-        x += step
+    # count the steps instead of accumulating x += step: the accumulated
+    # rounding error could push the last point beyond max_ and drop it
+    number_of_steps = math.floor((max_ - min_) / step + 1e-9)
+    for i in range(number_of_steps + 1):
+        yield min_ + i * step
 
 
 def generate_combinations(interactions: Iterable[T]) -> List[List[T]]:
